@@ -261,7 +261,6 @@ harness('session_sim', schemas=True)
 harness('reader_frame', schemas=True)
 harness('conc_send', schemas=True)
 harness('two_sessions', schemas=True)
-harness('meta_dump', schemas=False)
 
 
 def build(flavour, names):
@@ -366,8 +365,10 @@ if __name__ == '__main__':
     ap.add_argument('names', nargs='*')
     a = ap.parse_args()
     if a.flavour == 'all':
+        # what the quick commands use; anything else (thorough tiers) is built on demand by the check that needs it
         have = [n for n in HARNESSES if os.path.exists(os.path.join(VERIF, 'harness', HARNESSES[n][0][0]))]
-        for fl in ('asan', 'plain', 'tsan'):
-            build(fl, have)
+        build('asan', have)
+        build('plain', [n for n in ('persist_crash', 'queue_mon') if n in have])
+        build('tsan', [n for n in ('conc_send',) if n in have])
     else:
         print(build(a.flavour, a.names))
